@@ -221,7 +221,7 @@ func TestC14(t *testing.T) {
 	}
 	close(jobs)
 	wg.Wait()
-	r.Require("histories_db", "histories_http", "histories_linearizable", "overlapping_histories", "list_overlapping_two_puts", "same_value_puts_overlapping", "histories_over_loopback_sockets", "histories_with_failing_file_system", "calls_failed_by_io_error_under_concurrency", "calls_whose_reply_was_lost", "histories_with_a_restart")
+	r.Require("puts_of_the_empty_value", "histories_db", "histories_http", "histories_linearizable", "overlapping_histories", "list_overlapping_two_puts", "same_value_puts_overlapping", "histories_over_loopback_sockets", "histories_with_failing_file_system", "calls_failed_by_io_error_under_concurrency", "calls_whose_reply_was_lost", "histories_with_a_restart")
 	r.Rule("three history shapes: 'global-with-list' (4 clients x 5 ops: list/put/activate/get/delete on the first and last of 32 names, checked unpartitioned), 'per-key' (7 clients x 7 ops of all kinds on 3 names, partitioned by name), 'same-value-burst' (8 spin-synchronised clients putting the same value); audit sink injects yields/microsecond sleeps; DB API and HTTP handlers. Every history + a final sequential state read is decided by porcupine. Distinct = (shape, level, hash of the observed overlap pattern)")
 }
 
@@ -325,6 +325,9 @@ func oneHistory(t *testing.T, r *evid.Run, dir string, idx int, sh shape, level 
 					op.Value = []byte("the-same-value")
 				} else if rng.IntN(10) == 0 {
 					op.Value = []byte("dup")
+				} else if rng.IntN(8) == 0 {
+					op.Value = []byte{} // the empty value is a value like any other
+					r.Count("puts_of_the_empty_value", 1)
 				}
 			}
 			if op.Kind == ops.GetVer || op.Kind == ops.GetCond || op.Kind == ops.Act || op.Kind == ops.DelVer {
